@@ -327,6 +327,139 @@ class Interp:
         """aff describes the typed value itself (no wrap) over the cell"""
         return v.aff is not None and v.dir is not None
 
+    # ---- bit fields of an affine source -----------------------------------------------
+    # fld = (a, b, k, w, p, C): the value C + ((((a*y + b) >> k) mod 2^w) << p), w None = no truncation, a*y + b >= 0 on the cell.
+    # Shift-and-mask code (base-128 digits and the like) moves such fields around; adjacent fields of sources that agree on
+    # the bits involved merge back, and a field that starts at bit 0 and is not truncated IS the affine source.
+    def as_fld(self, x):
+        if not isinstance(x, AI) or x.ty == "bool" or x.lo < 0:
+            return None
+        t = x.tag
+        if t and t[0] == "fld":
+            return t[1:]
+        if x.const() is not None:
+            return None
+        if self.exact(x) and x.aff[0] > 0:
+            return (x.aff[0], x.aff[1], 0, None, 0, 0)
+        if t and t[0] == "shr" and t[1] > 0:
+            return (t[1], t[2], t[3], None, 0, 0)
+        if t and t[0] == "low" and t[1] > 0:
+            return (t[1], t[2], 0, t[3], 0, 0)
+        if t and t[0] == "hi" and t[1] > 0:
+            return (t[1], t[2], t[3], None, t[3], 0)
+        return None
+
+    def mk_fld(self, ty, f):
+        a, b, k, w, p, C = f
+        if a <= 0 or k < 0 or p < 0 or (w is not None and w <= 0):
+            return None
+        s0, s1 = a * self.y0 + b, a * self.y1 + b
+        if s0 < 0:
+            return None
+        if w is not None:
+            # the field depends on the source only modulo 2^(k+w): the smallest non-negative representative
+            b -= (s0 >> (k + w)) << (k + w)
+            s0, s1 = a * self.y0 + b, a * self.y1 + b
+        q0, q1 = s0 >> k, s1 >> k
+        if w is not None and q1 < (1 << w):
+            w = None
+        if w is None and p == 0 and C:
+            b += C << k
+            C = 0
+            s0, s1 = a * self.y0 + b, a * self.y1 + b
+            if s0 < 0:
+                return None
+            q0, q1 = s0 >> k, s1 >> k
+        if w is None:
+            v0, v1, d = q0, q1, "up"
+        elif (q0 >> w) == (q1 >> w):
+            v0, v1, d = q0 % (1 << w), q1 % (1 << w), "up"
+        else:
+            v0, v1, d = 0, (1 << w) - 1, None
+        lo, hi = C + (v0 << p), C + (v1 << p)
+        if lo < tmin(ty) or hi > tmax(ty):
+            return None
+        if w is None and k == 0 and p == 0:
+            return self.from_aff(ty, a, b)
+        if lo == hi:
+            return AI(ty, lo, hi)
+        return AI(ty, lo, hi, d, None, ("fld", a, b, k, w, p, C))
+
+    def fld_op(self, op, x, y, ty):
+        """result of `x op y` as a field value, or None"""
+        fx, fy = self.as_fld(x), self.as_fld(y)
+        cx, cy = (x.const() if isinstance(x, AI) else None), (y.const() if isinstance(y, AI) else None)
+        if fx is not None and fy is not None and op in ("Add", "BitOr"):
+            if fx[0] != fy[0]:
+                return None
+            lo_f, up_f = (fx, fy) if fx[4] <= fy[4] else (fy, fx)
+            a, bl, kl, wl, pl, Cl = lo_f
+            _, bu, ku, wu, pu, Cu = up_f
+            if wl is None or pu != pl + wl or ku != kl + wl or (bl - bu) % (1 << (kl + wl)):
+                return None
+            if op == "BitOr" and (Cl or Cu):
+                return None
+            return self.mk_fld(ty, (a, bu, kl, (wl + wu) if wu is not None else None, pl, Cl + Cu))
+        if fx is None and fy is not None and cx is not None and op in ("Add", "BitOr"):
+            fx, cy, x, y = fy, cx, y, x
+            fy = None
+        if fx is None or cy is None or cy < 0:
+            return None
+        a, b, k, w, p, C = fx
+        if op == "Add":
+            return self.mk_fld(ty, (a, b, k, w, p, C + cy))
+        if op == "Sub":
+            if w is None and p == 0:
+                return self.mk_fld(ty, (a, b - (cy << k), k, None, 0, C))
+            return self.mk_fld(ty, (a, b, k, w, p, C - cy)) if C >= cy else None
+        if op == "BitOr":
+            m = x.hi.bit_length()
+            if cy % (1 << m) == 0:
+                return self.mk_fld(ty, (a, b, k, w, p, C + cy))
+            return None
+        if op == "BitAnd":
+            if cy & (cy + 1):
+                return None
+            m = cy.bit_length()
+            if C % (1 << m) or p != 0:
+                return None
+            if m == 0:
+                return AI(ty, 0, 0)
+            return self.mk_fld(ty, (a, b, k, m if w is None else min(w, m), 0, 0))
+        if op == "Shr":
+            if C % (1 << cy):
+                return None
+            if p >= cy:
+                return self.mk_fld(ty, (a, b, k, w, p - cy, C >> cy))
+            if p:
+                return None
+            if w is None:
+                return self.mk_fld(ty, (a, b, k + cy, None, 0, C >> cy))
+            if cy >= w:
+                return AI(ty, C >> cy, C >> cy)
+            return self.mk_fld(ty, (a, b, k + cy, w - cy, 0, C >> cy))
+        if op == "Shl":
+            return self.mk_fld(ty, (a, b, k, w, p + cy, C << cy))
+        return None
+
+    def arith(self, op, x, y, ty, want_overflow=False):
+        r = self._arith0(op, x, y, ty, want_overflow)
+        if op in ("Add", "Sub", "Shl", "Shr") and isinstance(x, AI) and isinstance(y, AI):
+            r0 = r[0] if want_overflow else r
+            if isinstance(r0, AI) and r0.const() is None and not self.exact(r0) and (want_overflow is False or r[1].const() == 0):
+                f = self.fld_op(op, x, y, ty)
+                if f is not None and f.lo >= r0.lo and f.hi <= r0.hi:
+                    return (f, r[1]) if want_overflow else f
+        return r
+
+    def bitop(self, op, x, y, ty):
+        r = self._bitop0(op, x, y, ty)
+        if op in ("BitAnd", "BitOr") and isinstance(r, AI) and r.const() is None and not self.exact(r):
+            f = self.fld_op(op, x, y, ty)
+            if f is not None and f.lo >= r.lo and f.hi <= r.hi:
+                return f
+        return r
+
     # ---- arithmetic ----------------------------------------------------------
     def binop(self, op, x, y, ty):
         if op.endswith("WithOverflow"):
@@ -374,7 +507,7 @@ class Interp:
                     res = 1
         return AI("bool", 0, 1) if res is None else AI("bool", res, res)
 
-    def arith(self, op, x, y, ty, want_overflow=False):
+    def _arith0(self, op, x, y, ty, want_overflow=False):
         if not isinstance(x, AI) or not isinstance(y, AI):
             raise Unsupported("arithmetic on non-integers (%s)" % op)
         w, signed = TY[ty]
@@ -531,7 +664,7 @@ class Interp:
             return self.norm(ty, lo, hi, None, aff)
         return self.norm(ty, lo, hi, None, None)
 
-    def bitop(self, op, x, y, ty):
+    def _bitop0(self, op, x, y, ty):
         if op == "BitOr" and x.tag and y.tag:
             r = self.recombine(x, y, ty)
             if r is not None:
